@@ -8,7 +8,10 @@ of the tree it returns (unique code ids, Flatten order, parents before children,
 function ids, every function constant linked to the code that names it, every code's symbol
 table present in the table tree).  `WF` is a hypothesis here: it is evaluated by the oracle
 on every real compiled tree of the correspondence run (a tree that fails it is reported),
-it is not proved of a model of `compile`.
+it is not proved of a model of `compile`.  The same holds of `CompileNames p` (the compiler's
+naming discipline: a code object carries a name exactly when it is a named function), under
+which the second guard is exactly "a function called `__main__`" (section "names, `isNamed`
+and the call frame").
 -/
 namespace Risor.C17
 
@@ -241,6 +244,120 @@ theorem C17_partial (p : Prog) (hwf : WF p) (hn : NamedConsistent p = true)
     ∃ q, unmarshal (marshal p) = .ok q ∧ execView q = execView p ∧ marshal q = marshal p :=
   ⟨p, C17_partial_roundtrip p hwf hn hu, rfl, rfl⟩
 
+/-! ## names, `isNamed` and the call frame: the second guard made exact
+
+`isNamed` is not serialised; `codeFromState` recomputes it from the name.  The guard
+`NamedConsistent` ("`isNamed` is what would be recomputed") is therefore what the round trip
+needs — but it is coarser than the recorded finding: it also excludes trees in which a code
+object carries a name WITHOUT being a named function (`labelled`), which the compiler never
+builds.  `CompileNames` states the compiler's naming discipline (root = `__main__`, every
+other code object named exactly when it is a named function, with the function's own name;
+evaluated on every compiled tree, source tie `codeNameWrites_tie`).  Under it the guard is
+exactly "no function is called `__main__`" — and without it the property is false although no
+function is called `__main__`: a label on an anonymous function makes the reloaded code
+named, and the VM then writes the function object past the frame's locals. -/
+
+/-- **The three ways a code object can be outside the second guard**: a named function called
+    `__main__` (the recorded finding), a name on something that is not a named function, or a
+    named function without a name. -/
+theorem namedOK_false_iff (n : Node) :
+    namedOK n = false ↔ (mainFn n = true ∨ labelled n = true ∨ (n.isNamed = true ∧ n.name = [])) := by
+  unfold namedOK mainFn labelled
+  by_cases h1 : n.name = [] <;> by_cases h2 : n.name = mainName <;> cases hn : n.isNamed <;>
+    simp_all [mainName_ne_nil, bne]
+
+/-- **On compiled code the second guard is exact**: for every program that obeys the
+    compiler's naming discipline, `NamedConsistent` fails exactly when some function is called
+    `__main__` — the guard of finding C17-func-named-main excludes nothing else. -/
+theorem compileNames_guard_exact (p : Prog) (hc : CompileNames p = true) :
+    NamedConsistent p = !HasMainFn p := by
+  unfold CompileNames at hc
+  simp only [Bool.and_eq_true, List.all_eq_true] at hc
+  exact all_namedOK_of_nameOK p.nodes hc.1
+
+/-- **The property for compiled programs**: every well-formed program that obeys the compiler's
+    naming discipline, has valid UTF-8 strings and no function called `__main__` reloads into
+    code with the same execution view and the same bytes — whatever its functions are bound
+    to (`f := func…`, `const f = func…`, arguments, results, containers). -/
+theorem C17_partial_compiled (p : Prog) (hwf : WF p) (hc : CompileNames p = true)
+    (hm : HasMainFn p = false) (hu : ValidUtf8Consts p = true) :
+    ∃ q, unmarshal (marshal p) = .ok q ∧ execView q = execView p ∧ marshal q = marshal p :=
+  C17_partial p hwf (by rw [compileNames_guard_exact p hc, hm]; rfl) hu
+
+/-- The property with the second guard replaced by the finding's words alone ("no function is
+    called `__main__`"), WITHOUT the compiler's naming discipline -/
+def C17_full_no_main_fn : Prop :=
+  ∀ p : Prog, WF p → ValidUtf8Consts p = true → HasMainFn p = false →
+    ∃ q, unmarshal (marshal p) = .ok q ∧ execView q = execView p ∧ marshal q = marshal p
+
+/-- `f := func() { … }; f()` as a compiler that labels the anonymous function's code object
+    with the variable's name would build it: root, and an UNNAMED code object whose name is
+    `f`; the function constant itself has no name and its table has no slot for one -/
+def cexLabel : Prog :=
+  { nodes := [
+      { id := mainName, name := mainName, isNamed := false, parent := none, functionID := [],
+        tableID := [114], instrs := [], consts := [.fn ⟨[49], [], [], []⟩ (some 1)], names := [], source := [] },
+      { id := mainName ++ [46, 48], name := [102], isNamed := false, parent := some 0, functionID := [49],
+        tableID := [114, 46, 48], instrs := [], consts := [], names := [], source := [] }],
+    table := .mk [114] [⟨[102], 0, false⟩] [([102], ⟨[102], 0, false⟩)] [] false
+      [.mk [114, 46, 48] [] [] [] false []] }
+
+theorem cexLabel_wf : WF cexLabel := by decide
+
+/-- **The naming discipline is needed**: without it the statement is false even though every
+    string is valid UTF-8 and no function is called `__main__` — the label comes back as the
+    name of a named function (`execView` differs in `isNamed`). -/
+theorem C17_counterexample_labelled_unnamed : ¬ C17_full_no_main_fn := by
+  intro h
+  obtain ⟨q, hq, hv, _⟩ := h cexLabel cexLabel_wf (by decide) (by decide)
+  rw [C17_unmarshal_total_on_image cexLabel cexLabel_wf (by decide)] at hq
+  injection hq with hq
+  subst hq
+  revert hv
+  decide
+
+/-- where the witness lies: outside the naming discipline and the coarse guard, not a
+    `__main__` function; its frames fit before the reload and not after -/
+theorem C17_counterexample_labelled_unnamed_guard :
+    CompileNames cexLabel = false ∧ NamedConsistent cexLabel = false ∧ HasMainFn cexLabel = false
+    ∧ FramesFit cexLabel = true ∧ FramesFit (reloadOf cexLabel) = false := by decide
+
+/-- **`IsNamed()` after a reload is a function of the name alone**, for every well-formed
+    program with valid strings and every code object of it. -/
+theorem reload_isNamed_from_name (p : Prog) (hwf : WF p) (hu : ValidUtf8Consts p = true) :
+    ∃ q, unmarshal (marshal p) = .ok q ∧
+      ∀ (i : Nat) (n : Node), p.nodes[i]? = some n →
+        (q.nodes[i]?).map Node.isNamed = some (n.name != [] && n.name != mainName) := by
+  refine ⟨_, C17_unmarshal_total_on_image p hwf hu, ?_⟩
+  intro i n h
+  simp [List.getElem?_map, h, renamed]
+
+/-- **No reloaded compiled program is written past a frame.**  For every well-formed program
+    with valid strings that obeys the naming discipline — functions called `__main__`
+    included — if every function of the compiled code can be called inside its frame
+    (`FramesFit`: parameters, plus the function itself when named, fit the code's local
+    slots), so can every function of the reloaded code. -/
+theorem C17_reload_frames_fit (p : Prog) (hwf : WF p) (hu : ValidUtf8Consts p = true)
+    (hc : CompileNames p = true) (hf : FramesFit p = true) :
+    ∃ q, unmarshal (marshal p) = .ok q ∧ FramesFit q = true := by
+  refine ⟨_, C17_unmarshal_total_on_image p hwf hu, ?_⟩
+  unfold CompileNames at hc
+  simp only [Bool.and_eq_true, List.all_eq_true] at hc
+  exact frames_fit_reloadOf p (fun n hn => nameOK_not_labelled n (hc.1 n hn)) hf
+
+/-- **What a label does** (Impl, any program): if a function constant is linked to an unnamed
+    code object that carries a name other than `__main__`, and that code has exactly as many
+    local slots as the function has parameters (it declares nothing of its own), then the
+    reload succeeds and the reloaded program no longer fits its frames: a call writes the
+    function object into slot `len(params)` of `len(params)` slots. -/
+theorem C17_reload_frame_overflow (p : Prog) (hwf : WF p) (hu : ValidUtf8Consts p = true)
+    (n m : Node) (f : FuncDef) (j : Nat) (t : Table)
+    (hn : n ∈ p.nodes) (hc : Const.fn f (some j) ∈ n.consts) (hm : p.nodes[j]? = some m)
+    (hl : labelled m = true) (ht : findTable p.table m.tableID = some t)
+    (hs : t.symbols.length = f.params.length) :
+    ∃ q, unmarshal (marshal p) = .ok q ∧ FramesFit q = false :=
+  ⟨_, C17_unmarshal_total_on_image p hwf hu, frames_overflow_of_labelled p n m f j t hn hc hm hl ht hs⟩
+
 /-! ## sessions: a result, once returned, is not changed by any later call
 
 `run s ops` is a history of `MarshalCode` / `UnmarshalCode` calls of ANY length over a store
@@ -423,6 +540,23 @@ theorem session_behaves_like_source_partial {Outcome : Type} (runVM : View → O
   obtain ⟨hwf, hn, hu⟩ := hg p hp
   exact ⟨p, hp, C17_partial_roundtrip p hwf hn hu⟩
 
+/-- what `compile` guarantees (structure and names) plus the two findings' exact guards -/
+def GoodCompiled (p : Prog) : Prop :=
+  WF p ∧ CompileNames p = true ∧ HasMainFn p = false ∧ ValidUtf8Consts p = true
+
+theorem goodCompiled_good (p : Prog) (h : GoodCompiled p) : Good p :=
+  ⟨h.1, by rw [compileNames_guard_exact p h.2.1, h.2.2.1]; rfl, h.2.2.2⟩
+
+/-- **Sessions over compiled programs**: the closure theorem with the guard in the finding's
+    words — start from compiled programs without a function called `__main__` and with valid
+    strings; whatever calls follow, none fails and every retained code object is one of them. -/
+theorem session_closed_compiled (ops : List Op) (s : Store)
+    (hg : ∀ p ∈ s.codes, GoodCompiled p) (hb : ∀ w ∈ s.blobs, ∃ p ∈ s.codes, w = marshal p) :
+    (∀ q ∈ (run s ops).1.codes, q ∈ s.codes)
+    ∧ (∀ w ∈ (run s ops).1.blobs, ∃ p ∈ s.codes, w = marshal p)
+    ∧ (∀ r ∈ (run s ops).2, ∀ e, r ≠ some (.failed e)) :=
+  session_closed_partial ops s (fun p hp => goodCompiled_good p (hg p hp)) hb
+
 /-- the statement discriminates: a `MarshalCode` that handed out its internal buffer (every
     retained byte string a window on it, `aliasedBlobs`) would NOT leave the store `run`
     leaves — two marshal calls on two different programs suffice. -/
@@ -453,6 +587,9 @@ example : WF exNested ∧ NamedConsistent exNested = true ∧ ValidUtf8Consts ex
 example : unmarshal (marshal exNested) = .ok exNested :=
   C17_partial_roundtrip exNested (by decide) (by decide) (by decide)
 example : (execView exNested).codes.length = 3 := by decide
+example : CompileNames exNested = true ∧ HasMainFn exNested = false ∧ FramesFit exNested = true := by decide
+example : CompileNames cexMain = true ∧ HasMainFn cexMain = true ∧ FramesFit cexMain = true := by decide
+example : GoodCompiled exNested := ⟨by decide, by decide, by decide, by decide⟩
 example : WF (cexUtf8.mapStr sanitize) := by decide
 example : ∃ q, unmarshal (marshal cexUtf8) = .ok q := C17_unmarshal_total_on_image_any_strings cexUtf8 (by decide)
 example : validStr [195, 169] = true ∧ validStr [255] = false ∧ validStr [237, 160, 128] = false := by decide
